@@ -9,7 +9,8 @@ Inductive ora :=
 | OIdnaDec (k : text) (v : option text)  (* k.encode('ascii').decode('idna'); None = UnicodeError *)
 | OIdnaEnc (k : text) (v : option text)  (* k.encode('idna').decode('ascii') *)
 | OInet4 (k : text) (ok : bool)
-| OInet6 (k : text) (r : N).             (* 0 ok, 1 OSError/ValueError, 2 UnicodeEncodeError *)
+| OInet6 (k : text) (r : N)              (* 0 ok, 1 OSError/ValueError, 2 UnicodeEncodeError *)
+| OInt (k : text) (v : option Z).        (* int(k) for non-ASCII k; None = ValueError *)
 
 Definition MISSING {A} : mres A := MOut 99.    (* an oracle answer the harness did not supply: fail closed *)
 
@@ -48,8 +49,15 @@ Fixpoint look_v6 (l : list ora) (k : text) : mres inet6_result :=
   | [] => MISSING
   end.
 
+Fixpoint look_int (l : list ora) (k : text) : mres (option Z) :=
+  match l with
+  | OInt k' v :: r => if text_eqb k k' then MOk v else look_int r k
+  | _ :: r => look_int r k
+  | [] => MISSING
+  end.
+
 Definition mk_oracles (l : list ora) : oracles :=
-  mkOracles (look_nfc l) (look_dec l) (look_enc l) (look_v4 l) (look_v6 l).
+  mkOracles (look_nfc l) (look_dec l) (look_enc l) (look_v4 l) (look_v6 l) (look_int l).
 
 (* ---- cases ---------------------------------------------------------------------------- *)
 Inductive ctor := ByParts | ByBase (base : text).
